@@ -200,6 +200,15 @@ func SignHashed(rand io.Reader, priv, e []byte) (r, s []byte, err error) {
 			continue
 		}
 
+		// k must lie in [1, n-1]: k = 0 gives the point at infinity and a signature that leaks priv
+		var kNonZero byte
+		for _, b := range K {
+			kNonZero |= b
+		}
+		if kNonZero == 0 {
+			continue
+		}
+
 		var kG *internal.SM2Point
 		KK := K[:]
 		kG, err = internal.ScalarBaseMult(KK)
